@@ -39,6 +39,11 @@ STRUCTS = [
     R("S13", [F("a", with_="closure"), F("s", skip=True, default="fn")], map="container"),
     R("S14i", [F("p"), F("q", default="Default")], allow_unknown=True),
     R("S14", [F("a"), F("fl", ty="S14i", flatten=True), F("k", skip=True)], default="Default"),
+    # combinations the receivers above keep apart: rename + multiple, with + default fn, Option leaf, with + and_then,
+    # all under rename_all and a container default
+    R("S15", [F("many_v", ty="Vec<Opq>", multiple=True, rename="x"), F("b_w", with_="path", default="fn"),
+              F("c_o", ty="Option<Opq>"), F("d_e", with_="closure", and_then="and_then")],
+      rename_all="camelCase", default="Default"),
 ]
 
 BY_NAME = {r["name"]: r for r in STRUCTS}
